@@ -176,6 +176,7 @@ def cases(tier):
     for t in TYPES:
         for n in (7, 8, 9, 16, 17, 100, 255, 256, 1000, 1024, 1025, 2049) if tier == "thorough" else (8, 9, 17, 300, 1100):
             yield {"k": "sizes", "type": t, "n": n}
+        yield {"k": "sizes", "type": t, "n": 3, "soak": True}
     for t in TYPES:
         ops = ops_for(t, tier)
         for i in range(len(ops)):
@@ -394,8 +395,18 @@ def run_sizes(case):
         for i in range(12):
             hist.append(("subsection", "u%d" % i, "-", None))
         hist += [("dict-del", "q10", "-", None), ("dict-del", "q3", "-", None), ("create", "q3", "list", many(t, 2)), ("reopen", "-", "-", None)]
+        if case.get("soak"):
+            # a long history on short lists: set / extend / clear / set again / reopen, the property deleted and created
+            # again under the same name, three times over
+            hist = []
+            for cyc in range(3):
+                hist += [("create", "p", "list", many(t, 2, cyc)), ("extend", "p", "list", many(t, 1, cyc + 1)), ("clear", "p", "-", None),
+                         ("assign", "p", "list", many(t, 3, cyc + 2)), ("extend", "p", "list", many(t, 2, cyc + 3)), ("reopen", "-", "-", None),
+                         ("dict-set", "p", "list", many(t, 1, cyc + 4)), ("assign", "p", "None", None), ("extend", "p", "list", many(t, 4, cyc + 5)),
+                         ("subsection", "sub%d" % cyc, "-", None), ("dict-del", "p", "-", None)]
+            hist += [("create", "p", "list", many(t, 2, 9)), ("reopen", "-", "-", None)]
         # long candidate lists with ONE value of another type somewhere in the middle / at the end: refused, nothing changes
-        for u in TYPES:
+        for u in ([] if case.get("soak") else TYPES):
             if u == t:
                 continue
             for pos in (n // 2, max(n, 300) - 1):
